@@ -51,6 +51,22 @@ def View.apply (v : View) : Out → Option View
     if v.hasComp c.tid c.eid then some { v with comps := v.comps.map fun x => if x.tid == c.tid && x.eid == c.eid then c else x } else none
   | o => v.applyCore o
 
+/-- under concurrency a client keeps the later of two actions of one entity and name, as the server does: the relays of
+    two actions set at the same time may reach it in either order -/
+def actionOlder (a x : Action) : Bool :=
+  match a.ts, x.ts with
+  | some t, some t0 => t.before t0
+  | _, _ => false
+
+def setActionLatest (l : List Action) (a : Action) : List Action :=
+  if l.any (fun x => x.eid == a.eid && x.name == a.name && actionOlder a x) then l else setAction l a
+
+/-- the (entity, name) pairs for which a connection saw, within one concurrent block, two different actions with the
+    same timestamp: which of them the server kept cannot be told from what the connection was sent -/
+def ambiguousActions (seen : List Action) : List (Nat × String) :=
+  (seen.filter fun a => seen.any fun b => b.eid == a.eid && b.name == a.name && b != a && !actionOlder a b && !actionOlder b a).map
+    (fun a => (a.eid, a.name)) |>.eraseDups
+
 /-- apply a broadcast the way a client must under concurrency: what it is told may already be in the state it was handed
     (or not be there any more), so adds are upserts and deletes of unknown things are ignored -/
 def View.applyLenient (v : View) : Out → View
@@ -62,7 +78,7 @@ def View.applyLenient (v : View) : Out → View
   | .compAddBcast _ c | .compUpdateBcast _ c =>
     { v with comps := (v.comps.filter fun x => !(x.tid == c.tid && x.eid == c.eid)) ++ [c] }
   | .compDeleteBcast _ tid eid => { v with comps := v.comps.filter fun c => !(c.tid == tid && c.eid == eid) }
-  | .actionBcast _ a => { v with actions := setAction v.actions a }
+  | .actionBcast _ a => { v with actions := setActionLatest v.actions a }
   | .assetAddBcast _ a => { v with assets := setAsset v.assets a }
   | _ => v
 
@@ -117,6 +133,7 @@ structure Member where
   conn : Nat
   view : View
   subs : List (Nat × Nat) := []        -- type id ↦ event at which the subscription (still held) was made
+  loose : List (Nat × String) := []    -- actions (entity, name) whose value a concurrent block left undetermined for this connection
 deriving Repr, Inhabited
 
 structure VState where
@@ -169,7 +186,9 @@ def VState.compare (m : VState) (x : Member) (ps : List Nat) (es : List EntityVi
   let m := if !v.pids.isPerm ps then m.bad "view-diverged" (flat s!"connection {x.conn}: participants {v.pids}, the server has {ps}") else m
   let m := if !v.ents.isPerm es then m.bad "view-diverged" (flat s!"connection {x.conn}: entities {reprStr v.ents}, the server has {reprStr es}") else m
   let m := match acts with
-    | some a => if !v.actions.isPerm a then m.bad "view-diverged" (flat s!"connection {x.conn}: entity actions {reprStr v.actions}, the server has {reprStr a}") else m
+    | some a =>
+      let firm (l : List Action) := l.filter fun (y : Action) => !x.loose.contains (y.eid, y.name)
+      if !(firm v.actions).isPerm (firm a) then m.bad "view-diverged" (flat s!"connection {x.conn}: entity actions {reprStr v.actions}, the server has {reprStr a}") else m
     | none => m
   let m := match assets with
     | some a => if !v.assets.isPerm a then m.bad "view-diverged" (flat s!"connection {x.conn}: asset instances {reprStr v.assets}, the server has {reprStr a}") else m
@@ -223,6 +242,7 @@ def handedAssets (own : List Out) : Option (List Asset) :=
   own.findSome? fun (o : Out) => match o with | .odalState a => some a | _ => none
 
 def VState.step (m : VState) (st : IStep) : VState :=
+  let before := m
   let m := match st.ev with
     | .handle c (some r) _ =>
       let own := inboxOf c st.ds
@@ -289,8 +309,14 @@ def VState.step (m : VState) (st : IStep) : VState :=
               | some (.assetAdd _ _ _ eid) => !v.hasEnt eid
               | some (.compAdd _ _ _ eid _) => !v.hasEnt eid
               | _ => false
-            let v := match mine with | some r => if orphan then v else v.own r inbox | none => v
-            m.put { x with view := v }
+            let v := match mine with
+              | some (.action rid _ (some a)) =>
+                if orphan || !inbox.contains (.actionResp rid) then v else { v with actions := setActionLatest v.actions a }
+              | some r => if orphan then v else v.own r inbox
+              | none => v
+            let seen := (inbox.filterMap fun (o : Out) => match o with | .actionBcast _ a => some a | _ => none) ++
+              (match mine with | some (.action rid _ (some a)) => if inbox.contains (.actionResp rid) then [a] else [] | _ => [])
+            m.put { x with view := v, loose := (x.loose ++ ambiguousActions seen).eraseDups }
           | none => m) m
     | .disconnect c => (m.deliverOthers c st.ds).drop c
     | .recv c _ =>
@@ -298,6 +324,16 @@ def VState.step (m : VState) (st : IStep) : VState :=
       | .ok => m
       | _ => (m.deliverOthers c st.ds).drop c
     | _ => m
+  -- an action that a later, sequential event sets again is determined again
+  let m := match st.ev with
+    | .conc _ => m
+    | _ =>
+      let at_ (v : View) (k : Nat × String) := v.actions.find? fun (a : Action) => a.eid == k.1 && a.name == k.2
+      { m with members := m.members.map fun (x : Member) =>
+          if x.loose.isEmpty then x else
+          match before.find x.conn with
+          | some x0 => { x with loose := x.loose.filter fun k => at_ x.view k == at_ x0.view k }
+          | none => x }
   { m with ev := m.ev + 1 }
 
 /-- views are only comparable when no broadcast class is switched off -/
